@@ -10,6 +10,7 @@ import (
 	"errors"
 	"fmt"
 	"io"
+	"os"
 	"strings"
 
 	"github.com/twpayne/go-geom"
@@ -514,13 +515,11 @@ func c03SQL(c *engine.Ctx, cs c03Case, fail func(what, desc string)) {
 }
 
 func c03Run(c *engine.Ctx) {
-	// query / in-place change / query histories on live objects
-	hdepth := 3
-	if c.Thorough() {
-		hdepth = 4
+	if os.Getenv("VERIF_C03_HISTORIES_FIRST") != "" {
+		// testing aid for the supervisor's second pass: with a pooled-buffer change in the tree the
+		// histories produce violations that do not reproduce in a fresh process and cut the run short
+		exploreLive(c, "c03-history", "history", c03LiveStarts(), 3, c03LiveQuery)
 	}
-	c.Note("history_depth", hdepth)
-	exploreLive(c, "c03-history", "history", c03LiveStarts(), hdepth, c03LiveQuery)
 	corpus := codecCorpus(c.Thorough())
 	big := bigCorpus(true)
 	c.Note("big_geometries", len(big))
@@ -675,6 +674,14 @@ func c03Run(c *engine.Ctx) {
 	if capped {
 		c.SetCapped("reader exploration hit its per-case execution cap")
 	}
+	// query / in-place change / query histories on live objects (last: the phases above are a
+	// single deterministic verdict per case; here several encoder results are held at once)
+	hdepth := 3
+	if c.Thorough() {
+		hdepth = 4
+	}
+	c.Note("history_depth", hdepth)
+	exploreLive(c, "c03-history", "history", c03LiveStarts(), hdepth, c03LiveQuery)
 	for _, k := range []string{"bytes_compared", "sql_roundtrips", "sql_wrong_type_rejected", "reader_schedules_ok", "writer_faults_ok", "empty_point_rejected", "unsupported_layout_rejected", "full_composition_encodings"} {
 		if c.Get(k) == 0 {
 			c.Warn("vacuous: counter " + k + " is zero")
